@@ -329,6 +329,11 @@ func Harness_C11_login() {
 	} else {
 		verifAssert(s.uid == 0 && s.authLvl == auth.LevelNone, "failed-login-leaves-session-unauthenticated")
 	}
+	// A token handed out while credentials still await validation must not say "validated": logging in with it
+	// would skip the validation the first login was refused for.
+	if tok := w.so.handlers["token"]; tok != nil && tok.lastGen != nil && w.uid0 == 0 && missingCreds {
+		verifAssert(tok.lastGen.Features&auth.FeatureValidated == 0, "token-issued-before-validation-is-not-marked-validated")
+	}
 	verifAssert(s.ver == w.ver0, "version-fixed")
 	verifAssert(len(out.replies) == 1, "login-answered-once")
 	verifReach("end")
